@@ -24,6 +24,63 @@ def nontrivial(ops, obs):
     return any(v in (1, 2) for v in vals) or len(vals) >= 3
 
 
+# ------------------------------------------------------------------ service level: first-writer-wins through the Drummer service
+def service_part(ck):
+    """bootstrapped / regions / deployment id are first-writer-wins THROUGH the service too (server.go SetBootstrapped / SetRegions /
+    setDeploymentID, SubmitChange after bootstrap), also when two Drummer servers race on the deployment id: real `server` methods on a
+    real single-replica NodeHost in child processes (executor and monitors of C17)."""
+    import c17
+    binp = ck.go_test_bin("", ["root/zz_verif_db_test.go", "root/zz_verif_service_test.go"], name="svcexec")
+    if binp is None:
+        return
+    rng = ck.rng
+    cases = []
+    M64 = (1 << 64) - 1
+    for i in range(24 if ck.tier == "quick" else 400):
+        ops = []
+        acts = []
+        for _ in range(rng.randint(1, 3)):
+            acts.append(("SD", rng.choice([0, 5, 78, M64, rng.randrange(M64)])))
+        for _ in range(rng.randint(1, 2)):
+            acts.append(("SDR", rng.choice([3, 81, M64 - 2, rng.randrange(M64)]), rng.choice([4, 82, 90, rng.randrange(M64)])))
+        for _ in range(rng.randint(1, 3)):
+            acts.append(c17.good_regions(rng))
+        acts += [("SB",)] * rng.randint(1, 2)
+        for sid_ in rng.sample([1, 2, 3, 100001], rng.randint(1, 3)):
+            acts.append(("SC", 0, sid_, rng.choice([1, 2]), rng.sample([11, 12, 13, 14], rng.randint(1, 3))))
+            if rng.random() < 0.4:
+                acts.append(("SC", 0, sid_, 2, [21, 22]))          # re-submission with other members: must not alter the definition
+        rng.shuffle(acts)
+        for a in acts:
+            ops += [a, ("GD",), ("GS",), ("CTX",)]
+        cases.append(("fw%d" % i, ops, "mem"))
+    res, params, fail = c17.run_exec(ck, binp, cases, "c13svc")
+    if res is None:
+        ck.violation("service executor failed to run", {"kind": "executor", "rc": fail[0], "log_tail": fail[1]}, found_input=False)
+        return
+    bad_infra = [c for c in cases if not (res.get(c[0]) and res[c[0]][1] == "ok")]
+    if bad_infra:
+        res2, _, _f = c17.run_exec(ck, binp, bad_infra, "c13svc2")
+        for c in bad_infra:
+            if res2 and res2.get(c[0]):
+                res[c[0]] = res2[c[0]]
+    c17.TTL[0] = params[0]
+    stats = {"calls": 0, "malformed": 0, "reports": 0, "reports_with_requests": 0, "restarts": 0, "died": 0}
+    nv = 0
+    for (name, ops, mode) in cases:
+        if not (res.get(name) and res[name][1] == "ok"):
+            continue                       # infrastructure (twice): not judged here, C17 owns the executor
+        ans = res[name][0]
+        for (mon, what, i) in c17.monitor_case(name, ops, ans, stats):
+            if nv < 3:
+                nv += 1
+                ck.violation("service level: " + what, c17.replay_of(name, ops, ans, i, mode))
+        for i, op in enumerate(ops):
+            if i in ans:
+                ck.count_case("svc %s %s" % (c17.op_line(op), ans[i][0][:80]))
+    ck.cov["service_part"] = {"sequences": len(cases), "calls": stats["calls"]}
+
+
 def run(ck):
     L = 4 if ck.tier == "quick" else 5
     ck.cov["rule"] = ("exhaustive: every sequence of length <= %d over an 8-command alphabet (3 competing non-finalized election writes with "
@@ -48,11 +105,15 @@ def run(ck):
         traces.append(dbgen.gen_kv_trace(ck.rng, length=ck.rng.randint(4, 18)))
     for _ in range(40 if ck.tier == "quick" else 600):
         traces.append(dbgen.gen_launch_trace(ck.rng))
+    for _ in range(250 if ck.tier == "quick" else 5000):
+        traces.append(dbgen.gen_flag_trace(ck.rng))
     ck.cov["exhaustive_part"] = "all %d command sequences of length <= %d over the 8-command alphabet" % (nexh, L)
     ck.cov["exhaustive"] = False
     if not ok:
         return
     traces = [dbgen.with_lag(ck.rng, t, 0.15) if len(t) > 8 else t for t in traces]
     dbprops.run_db_property(ck, eng, traces, [dbprops.mon_c13], with_replicas=True, nontrivial=nontrivial)
+    if not ck.violations:
+        service_part(ck)
     ck.sample({"trace": dbengine.trace_to_json(traces[700][:8])})
     ck.sample({"trace": dbengine.trace_to_json(traces[-50][:8])})
